@@ -78,7 +78,9 @@ func (p *Parser) Parse(stream io.Reader, handler Handler) error {
 		// next
 		if err = p.next(handler, line, pos, end); err != nil {
 			p.errs = append(p.errs, err)
-			if p.haltOnErr {
+			// Too deep an inclusion ends every level: carrying on with the
+			// next line would re-include from each of them in turn.
+			if p.haltOnErr || errors.Is(err, ErrIncludeTooDeep) {
 				return err
 			}
 		}
